@@ -132,6 +132,30 @@ def run(ctx):
                            "obj": fmt.projection.project_any(fmt.load(data)[1], spec, True), "overflow": []})
             ctx.count_case(("twin-effects", i, json.dumps(pth)), nontrivial=True)
         traces.append({"id": "twin-effects%d" % i, "events": events})
+    # a CONSTRUCTED instrument whose envelopes are edited IN PLACE, one at a time: each envelope owns its point list, so the saved
+    # file shows the added point in that envelope only (judged like a C06 edit against the state before the edit)
+    def envs_of(sm):
+        return [sm.volume_envelope, sm.panning_envelope, sm.pitch_envelope] + list(sm.effect_control_envelopes)
+    for k in range(7):
+        s0 = api.Synth(cl["Sampler"]())
+        base = fmt.projection.project_any(s0, spec, True)
+        oldpts = base["module"][0]["payload"]["envs"][k]["points"]
+        newpts = [list(p_) for p_ in oldpts] + [[(oldpts[-1][0] if oldpts else 0) + 7 + k, 100 + k]]
+        try:
+            envs_of(s0.module)[k].points.append(tuple(newpts[-1]))
+            out, o3 = fmt.load(s0.read())
+        except Exception as e:
+            out, o3 = "edit-raised:" + type(e).__name__, None
+        traces.append({"id": "constructed-envelope%d" % k, "events": [
+            {"op": "base", "obj": base},
+            {"op": "edit", "kind": "payload.envelope-append", "path": ["module", 1, "payload", "envs", k + 1, "points"], "value": newpts,
+             "outcome": out, "w": False, "edited": {"kind": "none"}, "chunks": [],
+             "after": fmt.projection.project_any(o3, spec, True) if o3 is not None else {"kind": "none"}}]})
+        ctx.count_case(("constructed-envelope", k), nontrivial=True)
+    for tr in fmt.boundary_traces(spec):          # deterministic boundary values (slots 0/126/127, one Sample object in three slots)
+        if "sampler" in tr["id"]:
+            traces.append(tr)
+            ctx.count_case((tr["id"],), nontrivial=True)
     # the shipped fixture and its variants
     for name, data in fmt.fixtures():
         if "sampler" in name:
